@@ -29,7 +29,7 @@ import (
 func init() { Register("C14", c14Parent, c14Child) }
 
 func c14Parent(r *ev.Run) {
-	r.Rule = "notification histories (update2 through Populate2, RFC 'update' through Populate, multi-row batches, hand-over batches, injected notifications that fail to apply: insert of a cached uuid, modify/delete of an unknown row, a failing row in the middle of a batch) applied to a cache with 2-3 handlers and random handler delays; a case is one history; distinct = (index configuration, notification kinds, failure kinds injected, number of handlers)"
+	r.Rule = "notification histories (update2 through Populate2, RFC 'update' through Populate, multi-row batches, hand-over batches, injected notifications that fail to apply: insert of a cached uuid, modify/delete of an unknown row, a failing row in the middle of a batch) applied to a cache with 2-3 handlers and random handler delays, every other history stopping and restarting the dispatcher with events queued; a case is one history; distinct = (index configuration, notification kinds, failure kinds injected, number of handlers)"
 	r.Assume("fewer events are outstanding than the 65536-entry buffer holds (the harness counts them)")
 	r.RunBatches(ev.BatchOpts{N: r.N(8, 32), Race: true})
 }
